@@ -1,8 +1,11 @@
 #!/bin/bash
-# tools/mutbuild.sh <patch.diff> <out-binary>: builds the harness against /repo + patch, restores /repo at once.
-patch="$1"; out="$2"
-cd /repo || exit 2
-if ! git diff --quiet; then echo "/repo has uncommitted changes; refusing"; exit 2; fi
-trap 'cd /repo && git checkout -- . ; echo "[mutbuild] /repo restored: $(git -C /repo status --short | wc -l) modified"' EXIT
-git apply "$patch" || exit 2
-cd /verif/harness && GOFLAGS=-mod=mod GOPROXY=off go build -tags verif -o "$out" .
+# tools/mutbuild.sh <patch.diff> <out-binary>: builds the harness against a scratch worktree of
+# /repo with the patch applied (and a scratch copy of the harness module); /repo and
+# /verif/harness are not touched. Everything scratch is removed afterwards.
+patch="$(readlink -f "$1")"; out="$2"
+wt=/var/tmp/mutrepo.b$$; hb=/var/tmp/mutharness.$$
+git -C /repo worktree add -q --detach "$wt" HEAD || exit 2
+trap 'git -C /repo worktree remove --force "$wt" 2>/dev/null; rm -rf "$wt" "$hb"; echo "[mutbuild] scratch removed"' EXIT
+git -C "$wt" apply "$patch" || exit 2
+mkdir -p "$hb" && cp /verif/harness/*.go /verif/harness/go.mod "$hb"/ && cp "$wt/go.sum" "$hb"/go.sum
+cd "$hb" && go mod edit -replace=go.etcd.io/bbolt="$wt" && GOFLAGS=-mod=mod GOPROXY=off go build -tags verif -o "$out" .
